@@ -3,7 +3,7 @@ import json
 import os
 import shutil
 
-from .. import common, pipeline, tla
+from .. import canary, common, pipeline, tla
 from .. import d_equality as D
 
 CFG = """SPECIFICATION Spec
@@ -51,6 +51,7 @@ def main(tier):
         with open(scnp, "w") as f:
             json.dump(et, f)
         res = tla.judge("J_Equality", events, chunk=20000, jobs=common.jobs(), env={"VERIF_SCN": scnp})
+        pipeline.canaries(rep, "J_Equality", [e for e in events if e["kind"] == "repr"][:5] + events[::max(1, len(events) // 40)], canary.equality, env={"VERIF_SCN": scnp}, want=24)
         rep.mark("judge")
         for gi, clause, _ in res["bad"]:
             e = events[gi]
